@@ -520,7 +520,7 @@ void one_case(vh::Ctx & c, uint64_t idx)
 
 int main(int argc, char ** argv)
 {
-  return vh::run(argc, argv, "C13", {40000, 2000000}, one_case, [](vh::Ctx & c) {
+  return vh::run(argc, argv, "C13", {120000, 2000000}, one_case, [](vh::Ctx & c) {
       // DESIGN C13: the allowance is decisive (16 eps S < res/4, an off-by-one cell cannot hide in it)
       // on at least 90 % of the axes this shard generated -- counted on the float axes alone, the
       // double axes are always decisive; otherwise the counter stays 0 and vcheck reports the run
